@@ -92,9 +92,12 @@ CLAIMS = {
         text="Static, partial: pre-release table folded to {alpha<beta<rc<0}; converter outcomes (numeric->int, label->"
              "exact-name member value, failure->ValueError, other types rejected); '-' normalised before splitting; default "
              "sequence number extracted as a shift polynomial with decreasing shifts and gaps >= 8 (closed-form "
-             "monotonicity for lower fields < 256); labels the build glue can emit are labels the encoder accepts.",
+             "monotonicity for lower fields < 256), and when the stored term is not that normal form it is evaluated on ordered "
+             "version tuples to find a concrete counterexample; labels the build glue can emit (regex flags included) are labels "
+             "the encoder accepts; the position of the pre-release label is independent of the field count (necessary for the "
+             "order to coincide across field counts - violated today: one recorded known finding).",
         note=TB + "NOT decided: order isomorphism for all pairs of strings (relation over values).",
-        technique="table folding; outcome enumeration by abstract evaluation; polynomial extraction; regex AST parsing",
+        technique="table folding; outcome enumeration by abstract evaluation; polynomial extraction; refutation by term evaluation; regex AST parsing",
         ref="5/C20"),
 
     "C01": dict(
@@ -150,9 +153,11 @@ CLAIMS = {
              "path (linear normal forms), padding in {0,1} cannot reach the header code (tiny integer-constraint check over "
              "the remainder and block size), header bytes emitted == declared bookkeeping, declared length fits the header "
              "form in each branch, zero fill; duplicate URI raises before anything is recorded; close appends one FF before "
-             "the only write; merge re-adds every non-empty key with its own value through add_cache_slot.",
+             "the only write; merge re-adds every non-empty key with its own value through add_cache_slot. When the padding "
+             "arithmetic is not in a recognised form the result term of add_padding is evaluated on a grid of sizes: a malformed "
+             "result is reported with the sizes as witness, no counterexample stays ANALYSIS-ERROR (prove or refute).",
         note=TB + "NOT decided: that the file decodes to exactly the supplied pairs (cbor2 decoder on the indefinite map).",
-        technique="byte-layout abstract evaluation + linear/interval reasoning on the padding size + dominance",
+        technique="byte-layout abstract evaluation + linear/interval reasoning on the padding size + dominance; refutation by term evaluation",
         ref="5/C10"),
     "C11": dict(
         text="Static, partial: string keys partitioned by re.fullmatch of the two patterns with the right polarity; dependencies "
@@ -195,8 +200,9 @@ CLAIMS = {
              "must be dominated by a type/length check, go through the converting helpers or sit in a handler; classes that "
              "can leave the parser must be within {ValueError family, SUITError, CBORDecodeError}; every from_cbor call passes "
              "bytes; sibling signatures; nullable metadata fields; cbor2.loads only inside deserialize_cbor after validation "
-             "under a converting catch-all; schema cycles through a byte-string-wrapped edge need a depth guard (one "
-             "recorded known finding).",
+             "under a converting catch-all; the decoded item passes a value-sharing guard before it is returned (CBOR tags 28/29, "
+             "repaired in fe22bac); every while loop of the parser advances on each path back to its head; schema cycles "
+             "through a byte-string-wrapped edge need a depth guard (one recorded known finding).",
         note=TB + "Exception hierarchy and decoder facts (cbor2 max_depth=400; hasattr(x,'tag') only for CBORTag) are library "
                   "facts. NOT decided: time and memory proportional to the input.",
         technique="may-escape (exception) analysis with flow-sensitive type narrowing of untrusted values; signature conformance; SCC analysis of the schema graph",
